@@ -10,6 +10,7 @@
 From PV Require Import Lib.Base Model.Status Model.Response Model.Xsw Proofs.Response_lemmas Proofs.C02_lemmas
   Proofs.Xsw_lemmas Proofs.C01_pipeline.
 From PV Require Import Model.XswIds Proofs.XswIds_lemmas.
+From PV Require Import Model.XswOpts Proofs.XswOpts_lemmas Model.MultiAssertion Proofs.MultiAssertion_lemmas.
 Open Scope N_scope.
 
 (* (0) Digest equality is structural equality (used everywhere below). *)
@@ -301,3 +302,94 @@ Proof.
   - intros []; vm_compute; reflexivity.
 Qed.
 Print Assumptions C01_precheck_side_normalisation_refuted.
+
+(* (5c) WHETHER the identifier is handed over at all (Model/XswOpts.v).  validate_signature appends --node-id and the
+   id as ONE argv element `if node_id:`; a run without it verifies the first signature of the document
+   (tool_first_signature).  With the code's hand-over check_signature_h IS check_signature_x; and for ANY hand-over
+   that passes every non-empty id unchanged the statement holds for EVERY id string - no condition on its
+   characters ('-x', '--node-id', blanks, quotes, '$', '%' ... are ids like any other).  TESTED on every run: the
+   recorded argv has exactly one --node-id, followed by one element that is item.id and the literal ID of an element
+   of the document handed over (oracle keys handed-over:tool-run-without-node-id / node-id-names-no-element /
+   node-id-not-item-id), on documents of the family id-option-like:*. *)
+Theorem C01_handover_of_the_code : forall pol doc nm i certs,
+  check_signature_h handover_code pol doc nm i certs = check_signature_x pol doc nm i certs.
+Proof. exact check_signature_h_code. Qed.
+Print Assumptions C01_handover_of_the_code.
+
+Theorem C01_relied_is_covered_for_every_id : forall h pol doc nm v certs,
+  (forall w, w <> [] -> h w = Some w) ->
+  check_signature_h h pol doc nm (Some v) certs = true ->
+  exists px X k D, covered doc nm v certs px X k D.
+Proof. exact handed_over_is_covered. Qed.
+Print Assumptions C01_relied_is_covered_for_every_id.
+
+Example C01_code_hands_every_id_over : forall w, w <> [] -> handover_code w = Some w.
+Proof. exact handover_code_hands_over. Qed.
+Print Assumptions C01_code_hands_every_id_over.
+
+(* ... and it is lost when option-looking ids are left out: the forged assertion's ID is -x, its own Signature child
+   is worthless but well shaped, the genuine signed assertion is parked EARLIER (Extensions): the run without
+   --node-id verifies the first signature of the document, the genuine one. *)
+Definition dashx : str := s2l "-x".
+Definition forgedA_opt := El ASSN (Some dashx) 20 [decoy dashx; admin].
+Definition doc_opt := El RESP (Some r1) 40 [El EXT None 50 [assertion1]; forgedA_opt].
+Theorem C01_dropping_option_like_ids_refuted :
+  handover_drops_options dashx = None /\
+  (forall pol, tool_first_signature pol doc_opt ASSN IDP = true) /\
+  (forall pol, check_signature_h handover_drops_options pol doc_opt ASSN (Some dashx) [IDP] = true) /\
+  (forall px X k D, ~ covered doc_opt ASSN dashx [IDP] px X k D) /\
+  (forall pol, check_signature_x pol doc_opt ASSN (Some dashx) [IDP] = false).
+Proof.
+  split; [vm_compute; reflexivity|split; [|split; [|split]]].
+  - intros []; vm_compute; reflexivity.
+  - intros []; vm_compute; reflexivity.
+  - intros px X k D [_ Hat _ Huniq Hsig _ _ _].
+    assert (px = [1]%nat) as -> by (symmetry; apply (Huniq [1]%nat forgedA_opt); reflexivity).
+    cbn in Hat. injection Hat as <-. destruct Hsig as (key & sid & spl & skids & Hk & _).
+    destruct k as [|[|[|k]]]; vm_compute in Hk; discriminate.
+  - intros []; vm_compute; reflexivity.
+Qed.
+Print Assumptions C01_dropping_option_like_ids_refuted.
+
+(* (6) Several plain assertions in one response (Model/MultiAssertion.v: parse_assertion's loop over
+   response.assertion, _assertion on each; .assertions / get_identity / name_id afterwards).  By induction over the
+   list: whatever the application reads - every assertion handed over, every attribute of the merged identity, the
+   name id - comes from an assertion that was INDIVIDUALLY checked; with want_assertions_signed that means: has a
+   signature, check_signature said yes (then C01_relied_is_covered applies to it), conditions and subject passed; and
+   a signature that is present is verified under every setting.  TESTED: unit parse_plain (model vs
+   parse_authn_request_response on 1..3 plain assertions + an empty EncryptedAssertion) and the oracle
+   identity-from-unchecked-assertion:* on the whole walk. *)
+Theorem C01_identity_from_individually_checked_assertions : forall req l asl ava nm,
+  parse_assertions req l = Some (asl, ava, nm) ->
+  asl = l /\ Forall (fun a => assertion_checked req a = true) l /\
+  (forall kv, In kv ava -> exists a, In a l /\ assertion_checked req a = true /\ In kv (a_ident a)) /\
+  (forall n, nm = Some n -> exists a, In a l /\ assertion_checked req a = true /\ a_name a = n).
+Proof. exact identity_from_checked. Qed.
+Print Assumptions C01_identity_from_individually_checked_assertions.
+
+Theorem C01_checked_means_verified : forall a,
+  (assertion_checked true a = true -> a_signed a = true /\ a_sig_ok a = true /\ a_cond_ok a = true) /\
+  (forall req, assertion_checked req a = true -> a_signed a = true -> a_sig_ok a = true).
+Proof. intros a. split; [apply checked_required_means_verified|intros req; apply signed_is_verified_whatever_setting]. Qed.
+Print Assumptions C01_checked_means_verified.
+
+(* a loop that looks at the first plain assertion only (NOT the code): genuine first, an unsigned one behind it *)
+Definition genuineA := {| a_signed := true; a_sig_ok := true; a_cond_ok := true; a_name := s2l "alice"; a_ident := [(s2l "givenName", [s2l "Alice"])] |}.
+Definition forgedU := {| a_signed := false; a_sig_ok := false; a_cond_ok := true; a_name := s2l "admin"; a_ident := [(s2l "givenName", [s2l "Mallory"])] |}.
+Theorem C01_first_assertion_only_refuted :
+  parse_assertions true [genuineA; forgedU] = None /\
+  exists asl ava nm, parse_first_only true [genuineA; forgedU] = Some (asl, ava, nm) /\
+    In (s2l "givenName", [s2l "Mallory"]) ava /\
+    ~ (exists a, In a asl /\ assertion_checked true a = true /\ In (s2l "givenName", [s2l "Mallory"]) (a_ident a)).
+Proof.
+  split; [vm_compute; reflexivity|].
+  eexists _, _, _. split; [vm_compute; reflexivity|split; [vm_compute; left; reflexivity|]].
+  intros (a & [<-|[<-|[]]] & Hc & Hin); vm_compute in Hc, Hin; [|discriminate].
+  destruct Hin as [H|[]]. discriminate.
+Qed.
+Print Assumptions C01_first_assertion_only_refuted.
+
+Example C01_multi_genuine_accepted :
+  exists r, parse_assertions true [genuineA; genuineA] = Some r.
+Proof. eexists. vm_compute. reflexivity. Qed.
+Print Assumptions C01_multi_genuine_accepted.
